@@ -43,7 +43,7 @@ class FnSpec:
     """Contract for one function (insert-only)."""
 
     def __init__(self, ret=None, sig="", loops=None, at=None, ghost=False, body_start="",
-                 rewrites=None, attrs="", no_unwind=True, generics=None, try_explicit=False):
+                 rewrites=None, attrs="", no_unwind=True, generics=None, try_explicit=False, names=None):
         self.ret = ret            # name for the return value:  -> T   becomes  -> (ret: T)
         self.sig = sig            # requires/ensures/decreases text, inserted before the body `{`
         self.loops = loops or {}  # ordinal (1-based) -> invariant/decreases text, before loop body `{`
@@ -52,6 +52,8 @@ class FnSpec:
         self.body_start = body_start  # proof text inserted right after the body's `{`
         self.rewrites = rewrites or []  # list of (rule, regex, replacement[, count]) applied to the fn text
         self.attrs = attrs        # attributes inserted before the fn (e.g. #[verifier::...])
+        self.names = names or {}  # placeholder -> regex with one group, matched on the fn text: `$placeholder` in sig / loops / at / anchors
+        #                           stands for the captured name (a local variable), so that renaming the local keeps the contract
         self.try_explicit = try_explicit  # T-TRY: write `E?` out as its match (the installed Verus knows nothing of the converted error of `?`)
 
 
@@ -805,6 +807,14 @@ class Piece:
             else:
                 raise Undecided(f"{fn.name}: ret name given but no return type")
         # signature contract
+        # loops are verified with the facts of their context (no loop isolation): naming a sub-expression before a loop, or any other
+        # harmless movement of a `let`, must not lose what the invariant relies on
+        if self.mode != "stub" and "loop_isolation" not in (fs.attrs or "") and "external_body" not in (fs.attrs or "") \
+                and loops_in(toks, kb, k1) and os.environ.get("VERIF_LOOP_ISOLATION", "0") != "1" \
+                and not any(("ensures" in v_ or "invariant_except_break" in v_) for v_ in fs.loops.values()):
+            import copy as _copy
+            fs = _copy.copy(fs)
+            fs.attrs = ((fs.attrs + "\n") if fs.attrs else "") + "#[verifier::loop_isolation(false)]"
         if fs.attrs:
             self._add(toks[k0].start, toks[k0].start, fs.attrs + "\n", "insert")
         if self.mode == "stub":
@@ -818,6 +828,26 @@ class Piece:
             self.edits = [e for e in self.edits if not (e.start >= body_s and e.end <= body_e and e.rule != "STUB-BODY")]
             self.rewrites_log = [r for r in self.rewrites_log if r["rule"] not in ("T-LOG",) or True]
             return
+        if fs.names:
+            import copy
+            body_text = self.sf.text[toks[k0].start:toks[k1].end]
+            bound = {}
+            for ph, pat in fs.names.items():
+                m_ = re.search(pat, body_text, re.S)
+                if not m_:
+                    raise Undecided(f"{fn.name}: no local matches /{pat}/ (needed by the contract as ${ph})")
+                bound[ph] = m_.group(1)
+            def sub_(t):
+                if not isinstance(t, str):
+                    return t
+                for ph in sorted(bound, key=len, reverse=True):
+                    t = t.replace("$" + ph, bound[ph])
+                return t
+            fs = copy.copy(fs)
+            fs.sig, fs.body_start = sub_(fs.sig), sub_(fs.body_start)
+            fs.loops = {k_: sub_(v_) for k_, v_ in fs.loops.items()}
+            fs.at = [tuple(sub_(x) if i_ in (1, 3) else x for i_, x in enumerate(a_)) for a_ in fs.at]
+            fs.rewrites = [tuple(sub_(x) if (i_ in (1, 2) and isinstance(x, str)) else x for i_, x in enumerate(r_)) for r_ in fs.rewrites]
         if fs.sig:
             self._add(toks[kb].start, toks[kb].start, "\n" + fs.sig + "\n", "insert")
         if fs.body_start:
@@ -899,11 +929,24 @@ class Piece:
                 p = toks[match_close(toks, lps[occ - 1][1])].start
                 self._add(p, p, "\n" + text + "\n", arule)
                 continue
-            pos = -1
-            for _ in range(occ):
-                pos = ftext.find(snippet, pos + 1)
-                if pos < 0:
-                    raise Undecided(f"{fn.name}: anchor `{snippet}` #{occ} not found")
+            if where.endswith("_re"):
+                # regex needle: its capture groups (names of locals, as a rule) are available to the inserted text as $1..$9,
+                # so that renaming a local does not lose the anchor
+                where = where[:-3]
+                ms_ = list(re.finditer(snippet, ftext, re.S))
+                if len(ms_) < occ:
+                    raise Undecided(f"{fn.name}: anchor /{snippet}/ #{occ} not found")
+                m_ = ms_[occ - 1]
+                pos = m_.start()
+                for gi_, g_ in enumerate(m_.groups(), 1):
+                    text = text.replace(f"${gi_}", g_ or "")
+                snippet = m_.group(0)
+            else:
+                pos = -1
+                for _ in range(occ):
+                    pos = ftext.find(snippet, pos + 1)
+                    if pos < 0:
+                        raise Undecided(f"{fn.name}: anchor `{snippet}` #{occ} not found")
             if where in ("before", "after"):
                 p = fstart + pos + (len(snippet) if where == "after" else 0)
             elif where == "after_open":
